@@ -149,7 +149,13 @@ def expand(case):
                 cs.append(x2)
             base = {"v": v, "frames": fs, "coords": cs, "px": px, "dt": dt, "blur": case["blur"]}
             for op in case["ops"]:
-                calls.append(dict(base, op=op, L=case.get("L"), minc=case.get("minc", 2)))
+                c = dict(base, op=op, L=case.get("L"), minc=case.get("minc", 2))
+                if op == "ensols":
+                    c["L"] = case.get("L_ols", case.get("L"))
+                    if v != "scale" or pow2(case["meta"]["a"]):
+                        # max_lag=None (automatic number of lags): exact under every variant but a non-dyadic scale
+                        c["extras"] = case.get("extras", [])
+                calls.append(c)
         if case.get("copies"):
             j, k = case["copies"]["track"], case["copies"]["k"]
             one = {"v": "single", "frames": case["frames"][j], "coords": case["coords"][j], "px": case["px"],
@@ -158,9 +164,9 @@ def expand(case):
                    "px": case["px"], "dt": case["dt"], "blur": case["blur"]}
             calls.append(dict(one, op="msd", L=case.get("L")))
             calls.append(dict(one, op="cve"))
-            calls.append(dict(one, op="ols", L=case.get("L")))
+            calls.append(dict(one, op="ols", L=case.get("L_ols", case.get("L"))))
             for op in ("ensmsd", "enscve", "ensols"):
-                calls.append(dict(grp, op=op, L=case.get("L"), minc=2))
+                calls.append(dict(grp, op=op, L=case.get("L_ols", case.get("L")) if op == "ensols" else case.get("L"), minc=2))
     elif kind == "wmean":
         calls.append({"v": "base", "op": "wmean", "means": case["means"], "counts": case["counts"]})
     elif kind == "cov":
@@ -276,8 +282,15 @@ def run_call(c):
             e = g.ensemble_diffusion("cve")
             return (f"ok {rat(e.value)} {rat(float(e.std_err) ** 2)} {rat(e.localization_variance)} "
                     f"{opt_rat(e.variance_of_localization_variance)} {int(e.num_points)}")
-        e = g.ensemble_diffusion("ols", max_lag=c["L"])
-        return show_est(e)
+        ans = show_est(g.ensemble_diffusion("ols", max_lag=c["L"]))
+        ex = []
+        for name in c.get("extras", []):  # "olsopt": the number of lags is chosen by the library and reported as num_lags
+            try:
+                e = g.ensemble_diffusion("ols")
+                ex.append(f"{name}={rat(e.value)},{rat(float(e.std_err) ** 2)},{rat(e.localization_variance)},{e.num_lags}")
+            except Exception as err:  # noqa: BLE001
+                ex.append(f"{name}={errname(err)}")
+        return ans + (" ## " + " ".join(ex) if ex else "")
     raise ValueError(op)
 
 
@@ -596,6 +609,49 @@ def parse_extras(a):
     return out
 
 
+def extras_under(v, meta, a_v, a_b, f, S):
+    """the extra estimates (GLS, automatic number of lags) of a variant answer vs those of the base answer"""
+    ev, eb = parse_extras(a_v), parse_extras(a_b)
+    for name in eb:
+        if v == "scale" and not name.startswith("ols"):
+            # GLS stops on an ABSOLUTE change of 1e-4 (documented `tolerance`), so it is only
+            # scale-covariant up to that iteration tolerance: not asserted (DESIGN, C09 outside)
+            continue
+        if name not in ev:
+            return f"harness: extra {name} missing for {v}"
+        xv, xb = ev[name].split(","), eb[name].split(",")
+        if len(xb) < 4 or len(xv) < 4:
+            if xv != xb:
+                return f"{name} under {v}: {eb[name]} vs {ev[name]}"
+            continue
+        if xv[3] != xb[3]:
+            return f"{name} under {v}: number of lags changed from {xb[3]} to {xv[3]}"
+        msg = same_est("ok " + " ".join(xv[:3]), "ok " + " ".join(xb[:3]), f, S, f"{name} under {v}")
+        if msg:
+            return msg
+    return None
+
+
+def auto_lags_line(extra, pts, dt, what):
+    """`extra` = 'value,var,lv,num_lags' as reported for max_lag=None, `pts` = ALL (lag, msd) points in lag order: whatever
+    number of lags the library chose (it reports it as num_lags), slope and intercept must be the ordinary least-squares
+    line through exactly the first num_lags MSD points"""
+    x = extra.split(",")
+    if len(x) < 4:
+        return None  # an exception name (too few points for the heuristic, nan localization error): compared across variants only
+    k = int(x[3])
+    if k < 2:
+        return f"{what}: num_lags={k}, but a line needs at least two lags"
+    used = pts[:k]
+    if len(used) < 2:
+        return None
+    v, lv = ptok(x[0]), ptok(x[2])
+    if isinstance(v, float) or isinstance(lv, float):
+        return f"{what}: non-finite estimate"
+    msg = normal_equations(used, v, lv, dt)
+    return f"{what} (num_lags={k}, lags {[int(l) for l, _ in used]}): {msg}" if msg else None
+
+
 def oracle(case, ia):
     calls = calls_of(case)
     kind = case["kind"]
@@ -685,6 +741,12 @@ def oracle(case, ia):
                         msg = normal_equations(pts, got[0], got[2], case["dt"])
                         if msg:
                             return "ols: " + msg
+                auto = parse_extras(ans("base", op)).get("olsopt")
+                if auto:
+                    msg = auto_lags_line(auto, [(Fr(e[0]), e[1]) for e in brute_msd(frames, pos, None)], case["dt"],
+                                         "ols with the automatic number of lags")
+                    if msg:
+                        return msg
         # physical symmetries, evaluated on the implementation's own answers
         for v in sorted({c["v"] for c in calls} - {"base"}):
             f = REL[v](meta)
@@ -715,24 +777,9 @@ def oracle(case, ia):
                     if msg:
                         return msg
                     if op == "ols" and (v != "scale" or pow2(meta["a"])):
-                        ev, eb = parse_extras(ans(v, op)), parse_extras(ans("base", op))
-                        for name in eb:
-                            if v == "scale" and not name.startswith("ols"):
-                                # GLS stops on an ABSOLUTE change of 1e-4 (documented `tolerance`), so it is only
-                                # scale-covariant up to that iteration tolerance: not asserted (DESIGN, C09 outside)
-                                continue
-                            if name not in ev:
-                                return f"harness: extra {name} missing for {v}"
-                            xv, xb = ev[name].split(","), eb[name].split(",")
-                            if len(xb) < 4 or len(xv) < 4:
-                                if xv != xb:
-                                    return f"{name} under {v}: {eb[name]} vs {ev[name]}"
-                                continue
-                            if xv[3] != xb[3]:
-                                return f"{name} under {v}: number of lags changed from {xb[3]} to {xv[3]}"
-                            msg = same_est("ok " + " ".join(xv[:3]), "ok " + " ".join(xb[:3]), f, S, f"{name} under {v}")
-                            if msg:
-                                return msg
+                        msg = extras_under(v, meta, ans(v, op), ans("base", op), f, S)
+                        if msg:
+                            return msg
         return None
     if kind == "ens":
         return oracle_ens(case, calls, ia, idx, ans, meta, S0, S)
@@ -799,12 +846,22 @@ def oracle_ens(case, calls, ia, idx, ans, meta, S0, S):
                 if not near(g[vi], var, svar):
                     return f"ensemble cve: variance of the {'value' if j == 1 else 'localization variance'} is not eq. 57 of Vestergaard et al."
         elif op == "ensols":
-            exp = ens_msd_expected(tracks, L, 2)
+            auto = parse_extras(a).get("olsopt")
+            if auto:
+                exp = ens_msd_expected(tracks, None, 2)
+                if exp[0] == "ok":
+                    msg = auto_lags_line(auto, [(Fr(r[0]), r[1]) for r in exp[1]], case["dt"],
+                                         "ensemble ols with the automatic number of lags")
+                    if msg:
+                        return msg
+            a = strip_extras(a)
+            Lo = calls[idx[("base", op)]]["L"]
+            exp = ens_msd_expected(tracks, Lo, 2)
             if exp[0] != "ok":
                 if a != exp[0]:
                     return f"ensemble ols: expected {exp[0]} from the ensemble MSD, got {a[:60]}"
                 continue
-            pts = [(Fr(r[0]), r[1]) for r in pyslice(exp[1], L)]
+            pts = [(Fr(r[0]), r[1]) for r in pyslice(exp[1], Lo)]
             if len(pts) >= 2:
                 if not a.startswith("ok "):
                     return f"ensemble ols raised {a}"
@@ -850,6 +907,8 @@ def oracle_ens(case, calls, ia, idx, ans, meta, S0, S):
                             msg = f"{what}: variance of the localization variance is not {float(f[2] ** 2)} x the original"
                 else:
                     msg = same_est(av, ab, fa, S, what)
+                    if not msg and (v != "scale" or pow2(meta["a"])):
+                        msg = extras_under(v, meta, av, ab, f, S)
                 if msg:
                     return msg
     if case.get("copies"):
@@ -944,6 +1003,8 @@ def shrink(case):
         T = len(case["frames"])
         if case.get("copies"):
             yield dict(case, copies=None)
+        if case.get("extras"):
+            yield dict(case, extras=[])
         if len(case.get("variants", [])) > 1:
             for v in case["variants"]:
                 yield dict(case, variants=[v])
@@ -982,6 +1043,28 @@ def gen_frames(rng, n, contiguous=None):
     return out
 
 
+def gen_pattern(rng):
+    """a periodic sampling scheme (period, phases kept): every s-th frame, or a repeating on/off mask such as frames
+    0,1,4,5,8,9,...  The frame differences of such a track miss whole residue classes, so its lag set has HOLES (lags
+    1,3,4,5,7,... or 2,4,6,...): the k-th lag is then not the lag k, and `max_lag` = NUMBER of lags differs from a largest lag"""
+    if rng.chance(0.35):
+        return [rng.choice([2, 2, 3, 4]), [0]]
+    p = rng.choice([3, 4, 4, 5, 6, 8])
+    return [p, sorted(rng.sample(range(p), rng.randint(1, p - 1)))]
+
+
+def pattern_frames(rng, pattern, n, drop=0.0):
+    """n frames following the sampling scheme from a random start, optionally with further frames missing at random"""
+    p, phases = pattern
+    f = rng.choice([0, 0, 1, 7, rng.randint(0, 500)])
+    out = []
+    while len(out) < n:
+        if f % p in phases and not (out and drop and rng.chance(drop)):
+            out.append(f)
+        f += 1
+    return out
+
+
 def gen_coords(rng, n, exact):
     style = rng.randint(0, 5)
     x = rng.randint(-512, 2048) / 64 if exact else rng.uniform(-8, 32)
@@ -1010,10 +1093,11 @@ def gen_meta(rng, exact):
             "tc": rng.choice([2.0, 0.5, 4.0, 3.0])}
 
 
-def gen_track_case(rng, nmax, stream="random"):
+def gen_track_case(rng, nmax, stream="random", scheme=False):
+    """scheme: the track follows a periodic sampling scheme (gen_pattern): its lag set has holes"""
     exact = rng.chance(0.8)
     n = rng.choice([3, 3, 4, 5, 6, rng.randint(3, 12), rng.randint(3, nmax), rng.randint(3, nmax)])
-    frames = gen_frames(rng, n)
+    frames = pattern_frames(rng, gen_pattern(rng), n, rng.choice([0.0, 0.0, 0.1])) if scheme else gen_frames(rng, n)
     contiguous = all(b - a == 1 for a, b in zip(frames, frames[1:]))
     case = {"stream": stream, "kind": "track", "frames": frames, "coords": gen_coords(rng, n, exact), "exact": exact,
             "px": rng.choice(EXACT_PX if exact else LOOSE_PX), "dt": rng.choice(DTS),
@@ -1043,8 +1127,12 @@ def gen_track_case(rng, nmax, stream="random"):
     return case
 
 
-def gen_ens_case(rng, tmax, nmax, stream="random"):
+def gen_ens_case(rng, tmax, nmax, stream="random", shared=False):
+    """shared: all tracks of the group follow ONE sampling scheme (gen_pattern), so that the ensemble MSD has holes in its
+    lag set; otherwise every track draws its own gaps (then small lags are practically always present)"""
     exact = rng.chance(0.8)
+    pattern = gen_pattern(rng) if shared else None
+    drop = rng.choice([0.0, 0.0, 0.1]) if shared else 0.0
     T = rng.choice([2, 2, 3, 4, 5, rng.randint(2, 8), rng.randint(2, tmax)])
     if T > 10:
         nmax = min(nmax, 12)
@@ -1053,7 +1141,7 @@ def gen_ens_case(rng, tmax, nmax, stream="random"):
     n0 = rng.randint(3, nmax)
     for _ in range(T):
         n = n0 if same_len else rng.choice([rng.randint(3, nmax), rng.randint(3, nmax), rng.randint(3, 8), rng.randint(1, 3)])
-        frames.append(gen_frames(rng, n))
+        frames.append(pattern_frames(rng, pattern, n, drop) if shared else gen_frames(rng, n))
         coords.append(gen_coords(rng, n, exact))
     L = rng.choice([2, 2, 3, 4, 6, None, rng.randint(2, 10)])
     case = {"stream": stream, "kind": "ens", "frames": frames, "coords": coords, "exact": exact,
@@ -1066,6 +1154,12 @@ def gen_ens_case(rng, tmax, nmax, stream="random"):
         long = [j for j, f in enumerate(frames) if len(f) >= 3]
         if long:
             case["copies"] = {"track": rng.choice(long), "k": rng.choice([2, 3, 5])}
+    # (drawn last: the draws above are those of the earlier versions of this generator)
+    if not L:  # ensemble_msd with all lags; the ensemble OLS still gets an explicit number of lags
+        case["L_ols"] = rng.choice([2, 3, 4, 5])
+        case["ops"].append("ensols")
+    if rng.chance(0.6):
+        case["extras"] = ["olsopt"]  # ensemble OLS with max_lag=None: the library chooses and reports the number of lags
     return case
 
 
@@ -1083,6 +1177,24 @@ def small_scope(quick):
                        "exact": True, "px": 0.5, "dt": 0.25, "blur": 1 / 6, "meta": meta, "variants": list(VARIANTS[1:]),
                        "ops": list(ALL_OPS), "L_msd": None, "L_kmsd": 2, "L_ols": 3 if n > 3 else 2, "lv": 1 / 64,
                        "vlv": 1 / 1024, "extras": []}
+
+
+def small_scope_ens(quick):
+    """every pair of tracks that observe two fixed trajectories on 3-4 of the frames 0..5 (all gap patterns of both, incl.
+    pairs that share no lag or only lags with holes), ensemble MSD over all lags and ensemble OLS with max_lag 2 and 3"""
+    xa, xb = [0, 1, 3, 2, 5, 4], [1, 0, 2, 5, 3, 7]  # quarter pixels, indexed by frame
+    subsets = [fs for n in (3, 4) for fs in itertools.combinations(range(6), n)]
+    meta = {"c": 5 / 64, "k": 3, "a": 2.0, "tc": 0.5}
+    i = 0
+    for ia, fa in enumerate(subsets):
+        for fb in subsets[ia:]:
+            for L in (2, 3):
+                i += 1
+                if quick and i % 2:
+                    continue
+                yield {"stream": "small-scope", "kind": "ens", "frames": [list(fa), list(fb)],
+                       "coords": [[xa[f] / 4 for f in fa], [xb[f] / 4 for f in fb]], "exact": True, "px": 0.5, "dt": 0.25,
+                       "blur": 0, "meta": meta, "L": None, "L_ols": L, "minc": 2, "ops": ["ensmsd", "ensols"], "variants": []}
 
 
 def malformed(rng, count):
@@ -1180,6 +1292,7 @@ def cases(tier, rng):
         c = gen_ens_case(sub, 12 if quick else 50, 30)
         c["subseed"] = i
         yield c
+    yield from small_scope_ens(quick)
     r = rng.fork("c09-wmean")
     for i in range(60 if quick else 1500):
         sub = r.fork(i)
@@ -1198,10 +1311,39 @@ def cases(tier, rng):
         D, dt = sub.choice([0.5, 2.0, 10.0]), sub.choice([0.1, 0.01])
         yield {"stream": "brownian", "kind": "brownian", "subseed": i, "seed": sub.randint(0, 2**31), "D": D, "dt": dt, "steps": sub.choice([60, 100]),
                "num": 10, "noise": sub.choice([0.0, 0.5 * math.sqrt(D * dt)])}
+    # (forked last: the streams above are those of the earlier versions of this check)
+    r = rng.fork("c09-ens-shared")  # groups whose tracks share a sampling scheme: holes in the ensemble lag set
+    for i in range(40 if quick else 900):
+        sub = r.fork(i)
+        c = gen_ens_case(sub, 8 if quick else 30, 16 if quick else 24, shared=True)
+        c["subseed"] = i
+        yield c
+    r = rng.fork("c09-tracks-scheme")  # single tracks on a periodic sampling scheme: the k-th lag is not the lag k
+    for i in range(30 if quick else 600):
+        sub = r.fork(i)
+        c = gen_track_case(sub, 24 if quick else 40, scheme=True)
+        c["subseed"] = i
+        yield c
+
+
+def lag_holes(case):
+    """do the MSD points that enter the (ensemble) OLS fit with the explicit max_lag skip a lag, i.e. are the first max_lag
+    lags (for a group: of those that occur in at least two tracks) not 1, 2, ..., k?"""
+    def lagset(f, L):
+        return sorted({b - a for i, a in enumerate(f) for b in f[i + 1:]})[:L]
+
+    if case["kind"] == "track":
+        used = lagset(case["frames"], case.get("L_ols"))
+    else:
+        L = case.get("L_ols", case.get("L"))
+        per = [lagset(f, L) for f in case["frames"]]
+        used = sorted(u for u in {x for p in per for x in p} if sum(u in p for p in per) >= 2)[:L]
+    return used != list(range(1, len(used) + 1))
 
 
 def extra_coverage(results):
     kinds, errs, sizes, per_op, variants = {}, {}, {}, {}, {}
+    holes = {"track": 0, "ens": 0}
     gaps = {"contiguous": 0, "missing-frames": 0}
     exact = {"dyadic-grid": 0, "arbitrary-doubles": 0}
     blur, groups = {}, {}
@@ -1214,6 +1356,8 @@ def extra_coverage(results):
             if not a.startswith("ok "):
                 errs[a[:40]] = errs.get(a[:40], 0) + 1
         if c["kind"] in ("track", "ens"):
+            if c.get("stream") != "malformed" and (c.get("L_ols") or c.get("L")) and lag_holes(c):
+                holes[c["kind"]] += 1
             exact["dyadic-grid" if c.get("exact") else "arbitrary-doubles"] += 1
             blur[str(round(c["blur"], 4))] = blur.get(str(round(c["blur"], 4)), 0) + 1
             tl = [c["frames"]] if c["kind"] == "track" else c["frames"]
@@ -1228,6 +1372,7 @@ def extra_coverage(results):
                 groups[b] = groups.get(b, 0) + 1
     return {"case_kinds": kinds, "calls_per_op": per_op, "calls_per_variant": variants, "error_kinds": errs,
             "track_lengths": sizes, "frame_gaps": gaps, "position_grid": exact, "blur_constants": blur, "group_sizes": groups,
+            "cases_whose_fitted_lags_skip_a_value": holes,
             "tolerance": "1e-9 * scale (scale computed by the model from absolute values of every term)",
             "exhaustive": False,
             "exhaustive_note": "the small-scope stream enumerates its finite space completely on thorough (strided on quick); random streams do not"}
@@ -1241,7 +1386,12 @@ RULE = (
     "on the 1/64-pixel grid (80%) or arbitrary doubles; pixel sizes, line times, blur in {0,1/6,1/4,random}; max_lag around 2, n-1, n, "
     "the frame span, None, 0; known localisation variance incl. 0.0) each expanded into base + translate/mirror/frame-shift/"
     "pixel-size-scale/line-time-scale variants; groups of 2-50 tracks of unequal length (1-30 points) with min_count in "
-    "{1,2,3,T}, identical-copies sub-case; direct weighted_mean_and_sd and _msd_diffusion_covariance calls; seeded Brownian "
+    "{1,2,3,T}, identical-copies sub-case; ensemble small scope (every pair of tracks observing two fixed trajectories on 3-4 of "
+    "the frames 0..5, ensemble OLS with max_lag 2 and 3; every second one on quick); groups (2-30 tracks) and single tracks that "
+    "follow ONE periodic sampling scheme (every s-th frame, or a repeating on/off frame mask, plus random extra missing frames) so "
+    "that the lag set of the (ensemble) MSD has holes and the k-th lag is not the lag k; ensemble OLS with an explicit max_lag on "
+    "every group and, on 60%, also with max_lag=None (the reported num_lags decides which MSD points the line must fit; single "
+    "tracks likewise); direct weighted_mean_and_sd and _msd_diffusion_covariance calls; seeded Brownian "
     "simulations (5-sigma band, exploration). Non-trivial: a track case with >=3 points, a numeric estimate and at least one "
     "metamorphic variant; an ensemble with >=2 tracks and a numeric answer; a malformed case that raises."
 )
@@ -1255,7 +1405,8 @@ TRUSTED = [
 ASSUMPTIONS = [
     "frame indices of a track are strictly increasing integers (hypothesis Increasing of msd_def; KymoTrack data always are)",
     "theorems are over Q: they hold for the exact rational value of every double input, not for the rounded float arithmetic",
-    "outside the model (oracle/metamorphic exploration only): GLS iteration, determine_optimal_points (max_lag=None for ols), "
+    "outside the model (oracle/metamorphic exploration only): GLS iteration, determine_optimal_points (max_lag=None for ols and "
+    "ensemble ols: the oracle takes the reported num_lags and checks the normal equations through the first num_lags MSD points), "
     "GLS under position scaling (absolute tolerance 1e-4 in the iteration), blur = nan kymographs, groups mixing kymographs with "
     "different line times, recovery of D on simulated Brownian tracks (statistical, 5-sigma band)",
     "cve_scale needs a != 0; ols_normal_equations/ols_minimises need a non-degenerate design (K*sum(l^2) != (sum l)^2, i.e. >= 2 distinct lags)",
